@@ -1217,6 +1217,17 @@ def failing_variants(w, rng, st):
     if len(tops) >= 2:
         a, b = rng.sample(tops, 2)
         out.append({'template': 'unpeer_not_peered', 'call': 'unpeer', 'a': st.name(a), 'b': st.name(b)})
+        # peering two services that already peer (either direction): the second port's name is taken
+        for l in st.of_class('Link'):
+            cps = st.cps_of_link(l)
+            if len(cps) == 2 and all(st.typ(c) == 'ServicePort' for c in cps):
+                sa, sb = st.service_of_cp(cps[0]), st.service_of_cp(cps[1])
+                if sa and sb and sa[0] != sb[0]:
+                    out.append({'template': 'peer_already_peered', 'pos': 'same', 'call': 'peer', 'a': st.name(sa[0]),
+                                'b': st.name(sb[0])})
+                    out.append({'template': 'peer_already_peered', 'pos': 'reverse', 'call': 'peer', 'a': st.name(sb[0]),
+                                'b': st.name(sa[0])})
+                    break
     out.append({'template': 'remove_absent_node', 'call': 'remove_node', 'name': 'nope'})
     out.append({'template': 'remove_absent_service', 'call': 'remove_network_service', 'name': 'nope'})
     if vmnodes:
